@@ -442,15 +442,18 @@ PROPS["C08"] = {'assumptions': ['registrations of one shard get distinct time st
  'rule': 'traces of registry ops (open/open fail/break/pause/resume/wm/settle/end) against the real shardManagerImpl + two real '
          'adminServiceProxyServers in routing mode inside a synctest bubble, every trace in a child process (a panic or a stuck goroutine kills only '
          'the child and is the observation `crashed`/`leak n`). Deterministic scheduler: every proxy goroutine is held at its next schedule point '
-         '(the 4 verifPoint hooks + 13 log statements preceding the registry operations, goroutines attributed to incarnations by creation ancestry) '
-         'and released one at a time; un-paused workers run on newest-incarnation-first, exactly as the Lean driver does. Quick: exhaustive family = '
-         'one source stream with a watermark + two incarnations of one shard, each paused at one of 17 points or none, for every order of '
-         'open/break/resume (107 orders), plus 1500 random traces; thorough: the family also without the watermark holder, and 120000 random traces '
-         "with 3-4 incarnations over two shards, up to two pauses per incarnation, open failures, settles. Every op's canonical view (which "
-         'incarnation each of the five registries holds per shard, held workers, returned handlers, crash, leaked goroutines) is compared with the '
-         'Lean model; the monitor (newest live incarnation registered at quiescence, clean-up steps remove only own entries, nothing left at the '
-         "end, handlers returned, no goroutine left, no crash) runs on the real code's view; the monitor rules of the two repaired findings (second "
-         'delete of UnregisterShard, replay send on a closed channel) stay armed: their return is an unlisted VIOLATION. VERIF_C08_MODEL=asis '
-         'compares a checkout from before these two fixes with the old model (engine registry-asis). A trace is non-trivial when it has more than 3 '
-         'ops; distinct by op list.',
+         "(the 5 verifPoint hooks - among them replay.afterLookup, between the watermark replay's channel look-up and its send - + 13 log statements "
+         'preceding the registry operations, goroutines attributed to incarnations by creation ancestry) and released one at a time; un-paused '
+         'workers run on newest-incarnation-first, exactly as the Lean driver does. Quick: exhaustive family = one source stream with a watermark + '
+         'two incarnations of one shard, each paused at one of 18 points or none, for every order of open/break/resume (107 orders), plus the '
+         "replay-gap family (1788 traces: incarnation A held inside RegisterShard, incarnation B replaces the channel, A's replay looks it up and is "
+         'held at replay.afterLookup, B runs its close/remove steps up to any of its points, A sends; every order), plus 1500 random traces; '
+         'thorough: the family also without the watermark holder, and 120000 random traces with 3-4 incarnations over two shards, up to two pauses '
+         "per incarnation, open failures, settles. Every op's canonical view (which incarnation each of the five registries holds per shard, held "
+         'workers, returned handlers, crash, leaked goroutines) is compared with the Lean model; the monitor (newest live incarnation registered at '
+         'quiescence, clean-up steps remove only own entries, nothing left at the end, handlers returned, no goroutine left, no crash) runs on the '
+         "real code's view; the monitor rules of the two repaired findings (second delete of UnregisterShard, replay send on a closed channel) stay "
+         'armed: their return is an unlisted VIOLATION. VERIF_C08_MODEL=asis compares a checkout from before these two fixes with the old model '
+         '(engine registry-asis). A checkout without the replay.afterLookup hook is detected by a probe trace and compared with look-up and send run '
+         'together (`begin nogap`). A trace is non-trivial when it has more than 3 ops; distinct by op list.',
  'timeout': {'quick': 900, 'thorough': 7200}}
